@@ -105,7 +105,9 @@ def main():
         for i, s in enumerate(sels):
           def one(i=i, s=s):
             names = msf.filenames(main_files=[], units=s["units"], constants=s["constants"], include_io=s["io"])
-            start, graph, order, ready, files = run_once(msf, list(names))
+            _, graph, order, ready, files = run_once(msf, list(names))
+            # what the user asked for, spelled out here and not taken from the tool: the closure is judged against this
+            start = ["au/au.hh"] + ["au/units/%s.hh" % u for u in s["units"]] + ["au/constants/%s.hh" % c.lower() for c in s["constants"]] + (["au/io.hh"] if s["io"] else [])
             # the real command-line entry point, for the generated text
             argv = ["make-single-file", "--units"] + s["units"] + ["--constants"] + s["constants"] + ["--version-id", "verif"] + ([] if s["io"] else ["--noio"])
             buf = io.StringIO()
